@@ -1,6 +1,22 @@
 """Per-property manifest metadata.  bin/mkmanifest renders MANIFEST.json from this."""
 
 CHECKS = {
+    "C07": dict(
+        text="spec/EzspCodec.tla pins which of the three header layouts each protocol version uses and the structural rules of the codec: "
+             "frame IDs and names unique per version and within the layout's ID range, a call writes sequence number, frame control and ID "
+             "in the version's layout followed by the argument encodings in declared order (positional and keyword calls identical), and a "
+             "value tuple fed through the receive path comes out exactly once, under the right name, as result if a call is pending and to "
+             "the callbacks otherwise, equal to what was encoded with nothing left over. EzspCodecMC checks the layouts against each "
+             "other for versions 4..16. For all 11 versions and every command (about 2,900 pairs, 1 sample quick / 8 thorough, values "
+             "generated from the schema types incl. boundaries, undefined enum values, empty/long variable-length fields) the events are "
+             "recorded from the real call path (EZSP._command -> gateway.send_data) and the real receive path (EZSP.frame_received) "
+             "and judged by TLC (Trace_EzspCodec).",
+        design_ref="3/C07",
+        note="Weak fit for TLA+: the specification decides order, framing, identity, uniqueness and round-trip equality; the byte encoding of "
+             "individual field values is produced by the field types themselves (the property is the consistency of the codec pair). "
+             "Found and fixed one defect (tuple schemas of gpTranslationTableClear, v12-v14).",
+        technique="TLA+ structural codec specification evaluated by TLC on events recorded from the implementation for every version x command (trace validation)",
+    ),
     "C06": dict(
         text="spec/EzspCmd.tla models the command multiplexer per handler lifetime (register-then-send under a single slot with a "
              "priority queue, bounded wait, reply/callback demultiplexing by sequence number, stale registrations, responses overtaking "
